@@ -435,6 +435,12 @@ func (r *runner) tx(db, shape string) bool {
 		case "tr":
 			// the same page twice in one transaction (written to the log by a cache spill, modified again, written again)
 			w = pager.WTx{Frames: []uint32{2, 1, 2}, Outcome: "commit"}
+		case "fl":
+			// growth by free-list leaves that get no frame (what readers find for them: an earlier frame, the file, zeros)
+			w = pager.WTx{Frames: []uint32{1, s}, NewSize: s + 2, FreeLeaves: true, Outcome: "commit"}
+		case "sp":
+			// a page appended, spilled to the log and freed again: its frame lies beyond the commit size
+			w = pager.WTx{Frames: []uint32{s + 1, 1}, NewSize: s, Outcome: "commit"}
 		case "rb":
 			w = pager.WTx{Frames: []uint32{2, 1}, Outcome: "rollback"}
 		case "ck":
@@ -461,6 +467,10 @@ func (r *runner) tx(db, shape string) bool {
 			x = pager.RTx{NewSize: s + 1, Final: "PERSIST", Outcome: "commit"}
 		case "gb":
 			x = pager.RTx{NewSize: nextBlk, Final: "DELETE", Outcome: "commit"}
+		case "fl":
+			x = pager.RTx{Mods: []uint32{s}, NewSize: s + 3, FreeLeaves: true, Final: "DELETE", Outcome: "commit"}
+		case "sp":
+			return true // WAL only
 		case "s1":
 			if s < 2 {
 				return true
@@ -1086,7 +1096,7 @@ func (r *runner) enabled() []string {
 			}
 			continue
 		}
-		for _, sh := range []string{"t1", "tl", "tr", "g1", "gb", "s1", "sb", "rb", "ck"} {
+		for _, sh := range []string{"t1", "tl", "tr", "g1", "gb", "s1", "sb", "fl", "sp", "rb", "ck"} {
 			if !has("tx:" + sh) {
 				continue
 			}
@@ -1108,7 +1118,7 @@ func (r *runner) enabled() []string {
 				if s > 300 {
 					continue
 				}
-			case "ck":
+			case "ck", "sp":
 				if !isWAL(cur) {
 					continue
 				}
